@@ -124,6 +124,10 @@ def check_output(res, out, expected, nrow, ncol, self_mode):
         coords = list(zip(res.row.tolist(), res.col.tolist()))
         if len(coords) != len(set(coords)):
             return ("coo-duplicate-coordinates", sorted(coords)[:6])
+        # "encodes exactly the triplet result": the stored entries ARE the triplets - a pair at distance 0 (identical sequences) is a
+        # stored zero, which is the only way the sparse form can tell it from "not a neighbour"
+        if sorted(coords) != sorted((ri, qi) for qi, ri, d in expected):
+            return ("coo-stored-entries-differ-from-triplets", {"stored": sorted(coords)[:12], "triplets_as_row_col": sorted((ri, qi) for qi, ri, d in expected)[:12]})
         dense = res.toarray()
     else:
         if not isinstance(res, np.ndarray):
